@@ -94,7 +94,7 @@ def _d(seed, label):
 
 OPS = ["sm2_keygen", "sm2_sign", "sm2_sign_ctx", "sm2_decrypt", "sm2_decrypt_bad", "sm2_ecdh", "sm2_import_der", "sm2_import_bad", "sm2_import_mismatch", "pem_key_damaged", "pem_key_damaged", "sm4_stream_dec", "sm4_stream_dec", "sm4_stream_dec", "sm4_stream_dec",
        "cms_open_0", "cms_open_1", "cms_open_2", "cms_open_3", "cms_open_4", "cms_open_5", "cms_open_6", "cms_open_6", "cms_open_7", "tls_ctx_keys", "tls_ctx_keys", "hex_key_bad", "tlcp_cke_badlen", "tlcp_cke_badlen",
-       "pkcs8_open", "pkcs8_wrong_password", "sm9_sign", "sm9_decrypt", "sm9_keygen",
+       "pkcs8_open", "pkcs8_wrong_password", "sm9_key_open", "sm9_key_open_wrong_password", "sm9_key_open_wrong_password", "sm9_key_open_damaged", "sm9_key_open_damaged", "sm9_sign", "sm9_decrypt", "sm9_keygen",
        "hs_tlcp", "hs_tls12", "hs_tls13", "hs_tlcp_mutual", "hs_tls12_mutual", "hs_tls13_mutual",
        "hs_tlcp_untrusted", "hs_tls12_untrusted", "hs_tls13_untrusted", "hs_tls12_badclient",
        # a record is altered in flight (handshake phase or application phase): the failure paths of record protection
@@ -479,6 +479,47 @@ def ops(case, ctx):
                     else:
                         r, _o = A5.run_stream(l, pre, pre.upper() + "_CTX", k48, iv, aad, wire, parts, False, lambda k_: (Buf.of(k_),))
                     ctx.note("stream-dec/%s/%s/%s" % (mode, damage, "accepted" if r in (1, True, "late") else "refused"))
+                elif op in ("sm9_key_open", "sm9_key_open_wrong_password", "sm9_key_open_damaged"):
+                    # password-protected SM9 keys (master and user keys, sign and enc): exported, then opened with the right password, a
+                    # wrong one, or the right one on a damaged container - passwords, the derived key and the key material stay off the channels
+                    kind = seed % 4
+                    idb = b"user-%d" % seed
+                    pw = b"Sm9-secret-pass-%d" % seed
+                    if kind < 2:
+                        mk = obj("SM9_SIGN_MASTER_KEY"); l.sm9_sign_master_key_generate(mk)
+                        uk = obj("SM9_SIGN_KEY"); l.sm9_sign_master_key_extract_key(mk, Buf.of(idb), len(idb), uk)
+                        names = ("sm9_sign_master_key", "sm9_sign_key")
+                        types = ("SM9_SIGN_MASTER_KEY", "SM9_SIGN_KEY")
+                    else:
+                        mk = obj("SM9_ENC_MASTER_KEY"); l.sm9_enc_master_key_generate(mk)
+                        uk = obj("SM9_ENC_KEY"); l.sm9_enc_master_key_extract_key(mk, Buf.of(idb), len(idb), uk)
+                        names = ("sm9_enc_master_key", "sm9_enc_key")
+                        types = ("SM9_ENC_MASTER_KEY", "SM9_ENC_KEY")
+                    which = kind & 1
+                    keyobj = (mk, uk)[which]
+                    out = Buf(2048, fill=0); op_ = ctypes.c_void_p(out.ptr); ol = ctypes.c_size_t(0)
+                    r = getattr(l, names[which] + "_info_encrypt_to_der")(keyobj, Buf.of(pw + b"\0"), ctypes.byref(op_), ctypes.byref(ol))
+                    der = out.raw(ol.value)
+                    secrets = {"sm9 master secret (limbs)": mk.raw(32, 0), "sm9 master secret": mk.raw(32, 0)[::-1], "password": pw,
+                               "sm9 key object": keyobj.raw(64, 0)}
+                    # the key PBKDF2-HMAC-SM3 derives from the password and the salt inside the container
+                    try:
+                        i_ = der.index(bytes.fromhex("0410"))
+                        salt = der[i_ + 2:i_ + 18]
+                        secrets["key derived from the password"] = hashlib.pbkdf2_hmac("sm3", pw, salt, 65536, 16)
+                    except (ValueError, Exception):
+                        pass
+                    use = pw
+                    if op == "sm9_key_open_wrong_password":
+                        use = b"Sm9-wrong-pass-%d" % seed
+                        secrets["offered password"] = use
+                    elif op == "sm9_key_open_damaged":
+                        b_ = bytearray(der); b_[-1 - (seed >> 4) % 40] ^= 1 << ((seed >> 10) & 7); der = bytes(b_)
+                    if r == 1:
+                        k2 = obj(types[which])
+                        db = Buf.of(der); ip = ctypes.c_void_p(db.ptr); il = ctypes.c_size_t(len(der))
+                        r2 = getattr(l, names[which] + "_info_decrypt_from_der")(k2, Buf.of(use + b"\0"), ctypes.byref(ip), ctypes.byref(il))
+                        ctx.note("sm9-key-open/%s/%s" % (op, "opened" if r2 == 1 else "refused"))
                 elif op == "tlcp_cke_badlen":
                     # a TLCP client (scripted, vlib/peer12.py) whose ClientKeyExchange wraps a value that is not 48 bytes long under the server's
                     # encryption certificate: the server decrypts it with its private key before it can refuse it
